@@ -2,21 +2,22 @@
 # tools/benign_regress.sh "<benign ids>" "<checks>"   re-runs the named quick checks against recorded
 # property-preserving changes (apply patch to /repo, ./check <prop> quick, revert) and reports every
 # check that is no longer silent. Used after a check has been strengthened. Evidence files are preserved.
-cd /verif
+ROOT=$(cd "$(dirname "$0")/.." && pwd); cd "$ROOT"
+REPO=${VERIF_REPO:-/repo}   # a scratch worktree of the repository can be named instead (./check honours VERIF_REPO too)
 IDS="$1"; [ -z "$IDS" ] && IDS=$(ls benign)
 CHECKS="$2"; [ -z "$CHECKS" ] && CHECKS="C01 C02 C03 C04 C05 C06 C07 C08 C09 C10 C11 C12 C14 C15 C17 C18 C19 C20"
-if ! git -C /repo diff --quiet; then echo "/repo has uncommitted changes; refusing"; exit 2; fi
+if ! git -C "$REPO" diff --quiet; then echo "$REPO has uncommitted changes; refusing"; exit 2; fi
 rm -rf .work/evidence.bregress && cp -r evidence .work/evidence.bregress
 LOUD=""
 for id in $IDS; do
-  git -C /repo apply /verif/benign/$id/patch.diff || { echo "$id: patch does not apply"; LOUD="$LOUD $id(apply)"; continue; }
+  git -C "$REPO" apply $ROOT/benign/$id/patch.diff || { echo "$id: patch does not apply"; LOUD="$LOUD $id(apply)"; continue; }
   for p in $CHECKS; do
     ./check $p quick > .work/bregress_${id}_$p.log 2>&1; rc=$?
     rule=$(grep '^violation rule=' .work/bregress_${id}_$p.log | sed 's/^violation rule=\([^ ]*\).*/\1/' | sort | uniq -c | sort -rn | head -3 | tr '\n' ' ')
     echo "$id $p exit=$rc $rule"
     [ $rc -ne 0 ] && LOUD="$LOUD $id/$p(exit=$rc)"
   done
-  git -C /repo checkout -- . && git -C /repo clean -fdq
+  git -C "$REPO" checkout -- . && git -C "$REPO" clean -fdq
 done
 rm -rf evidence && mv .work/evidence.bregress evidence
 echo "not silent:${LOUD:- none}"
